@@ -23,7 +23,7 @@ Line-protocol driver for the quorum model (C06).
   (`answerBehaviour`: the payload cannot be rendered / read).
   (weight / rel of a vote token may be `_`: keep the profile's value; the colony persists between votes and is
    grown / shrunk to the ballot's length through add_agent / remove_agent)
-  → reached decision permit block abstain total thresholdTag [vote kinds:weight:conf] strategy cb=<reached|failed|none> ## branch tags
+  → reached decision permit block abstain total thresholdTag [vote kinds:weight:conf] strategy st=<total_votes>/<quorums_reached>/<quorums_failed>/<history length> cb=<reached|failed|none> ## branch tags
     (a raising callback: `raise:CallbackError <reached|failed> <the result it was handed>`)
 -/
 open Operon Operon.Proto Operon.Quorum
@@ -36,6 +36,7 @@ structure DSt where
   cbReached : Nat := 0                        -- `on_quorum_reached`: 0 not installed, 1 installed, 2 installed and raising
   cbFailed : Nat := 0                         -- `on_quorum_failed`
   tracking : Bool := true                     -- `enable_reliability_tracking`
+  ledger : Ledger := {}                       -- `get_statistics()` counters and `_vote_history`
 
 /-- all quorum objects alive: the current one and the parked ones -/
 structure World where
@@ -161,6 +162,10 @@ def firedCallback (st : DSt) (r : Result) : String × Nat :=
   | .onReached => ("reached", st.cbReached)
   | .onFailed => ("failed", st.cbFailed)
 
+/-- `get_statistics()` total_votes / quorums_reached / quorums_failed and `len(get_vote_history(10**6))` after the vote -/
+def showLedger (l : Ledger) : String :=
+  s!"st={l.totalVotes}/{l.reached}/{l.failed}/{l.history.length}"
+
 def showResult (st : DSt) (cfg : Cfg) (voters : List Voter) (names : List (List Nat)) (r : Result) (tagPrefix : String) : String :=
   let gated := decide (activeCount (collect voters) < cfg.minVoters)
   let tag := if gated then s!"{tagPrefix}gate"
@@ -168,7 +173,7 @@ def showResult (st : DSt) (cfg : Cfg) (voters : List Voter) (names : List (List 
   let obs := joinSp [showBool r.reached, showVT r.decision, toString r.permit, toString r.block,
     toString r.abstain, toString r.total, thresholdTag cfg voters.length r gated,
     showList (List.zipWith (fun v n => s!"{showVT v.kind}:{showRat v.weight}:{showRat v.conf}:{encodeCps n}") r.votes names),
-    showStrategy cfg.strategy]
+    showStrategy cfg.strategy, showLedger (st.ledger.record r)]
   let (kind, mode) := firedCallback st r
   (if mode = 2 then s!"raise:CallbackError {kind} {obs}"
    else if mode = 1 then s!"{obs} cb={kind}" else s!"{obs} cb=none") ++ s!" ## {tag}"
@@ -187,7 +192,8 @@ def voteLine (st : DSt) (cfg : Cfg) (toks : List Tok) : DSt × String :=
   let beh : Nat → Behaviour := fun i => (toks.map (·.beh)).getD i ⟨.permit, .absent⟩
   let voters := electorate c1 beh
   let (q, res) := stepOp ⟨cfg, c1, st.last⟩ (.vote beh)
-  let st' : DSt := { st with cfg := some cfg, colony := some q.colony, last := q.last }
+  let st' : DSt := { st with cfg := some cfg, colony := some q.colony, last := q.last,
+                              ledger := match res with | some r => st.ledger.record r | none => st.ledger }
   match res with
   | none => (st', s!"raise:ZeroDivisionError ## {showStrategy cfg.strategy}:raise")
   | some r =>
